@@ -97,6 +97,9 @@ template <typename FSM> void Explorer<FSM>::inCallbackMore(int kind, int state, 
 	}
 }
 template <typename FSM> void Explorer<FSM>::liveChecks(Runner& r, Exec& x) {
+#if VT_HISTORY
+	if (props & P_C09) checkC09(r, x);
+#endif
 	pendingQuiescent.clear();
 	if ((props & P_C13) && x.activatedAfter) {
 		pendingQuiescent.assign(N, 0);
@@ -582,7 +585,325 @@ void Explorer<FSM>::checkC02(const Node& node, Exec& x) {
 }
 
 template <typename FSM> void Explorer<FSM>::extraOps(const Node&, std::vector<Op>&) const {}
-template <typename FSM> void Explorer<FSM>::perState(const Node&) {}
-template <typename FSM> void Explorer<FSM>::finish() {}
+
+// ---- C09: history records what was applied; replaying it reproduces the state -----------------------------------
+#if VT_HISTORY
+template <typename FSM>
+void Explorer<FSM>::checkC09(Runner& r, Exec& x) {
+	const Op& op = x.step.op;
+	const bool processing = op.type == OP_IMMEDIATE || op.type == OP_BATCH || op.type == OP_UPDATE || op.type == OP_REACT;
+	const bool initial = (op.type == OP_CONSTRUCT && !E::MANUAL) || op.type == OP_ENTER;
+	if (!processing && !initial) return;
+	if (!x.activatedAfter) return;
+	struct Rq { int kind, dest, origin, tag; };
+	// request groups: G[0] issued before the first guard callback, G[k] issued during guard round k
+	const std::vector<Round> rs = rounds(x);
+	std::vector<std::vector<Rq>> groups(rs.size() + 1);
+	bool planAct = false;
+	for (size_t i = x.stepBegin; i < x.stepEnd; ++i) {
+		const TraceEv& e = x.trace[i];
+		if (e.meth == E_SUCCEED || e.meth == E_FAIL || e.meth == M_PLAN_SUCCEEDED || e.meth == M_PLAN_FAILED) planAct = true;
+		if (e.meth != E_REQUEST) continue;
+		size_t g = 0;
+		for (size_t k = 0; k < rs.size(); ++k) if (i > rs[k].first) g = k + 1;
+		groups[g].push_back(Rq{e.a, e.b, e.state, e.c});
+	}
+	if (planAct) return;  // requests issued by plans are not visible as environment requests
+	for (auto& g : groups) if ((int) g.size() > VT_COUNTS.compo) return;  // over capacity: C11
+	// round j evaluates group j (group 0: issued before any guard; group j: issued by the guards of round j-1; for the first
+	// activation group 0 is empty). The group issued by the guards of the last visible round is evaluated in a round in
+	// which no guard callback is invoked (or not at all): it may be recorded, but is not required.
+	struct Tagged { Rq q; int status; };  // 0 approved (required), 1 optional, 2 vetoed
+	std::vector<Tagged> seq;
+	for (size_t g = 0; g < groups.size(); ++g)
+		for (const Rq& q : groups[g]) seq.push_back(Tagged{q, g < rs.size() ? (rs[g].cancelled ? 2 : 0) : 1});
+	std::vector<Rq> approved, vetoed;
+	for (const Tagged& t : seq) { if (t.status == 0) approved.push_back(t.q); if (t.status == 2) vetoed.push_back(t.q); }
+	const auto& pt = r.fsm->previousTransitions();
+	++compared;
+	auto same = [](const typename E::Transition& t, const Rq& q) { return (int) t.destination == q.dest && Runner::kindOf(t.type) == q.kind; };
+	// (1) order-preserving sub-sequence of the requests that were not vetoed
+	size_t j = 0;
+	for (unsigned i = 0; i < pt.count(); ++i) {
+		while (j < seq.size() && (seq[j].status == 2 || !same(pt[i], seq[j].q))) ++j;
+		if (j == seq.size()) {
+			bool fromVeto = false;
+			for (const Rq& q : vetoed) if (same(pt[i], q)) fromVeto = true;
+			violation("C09", fromVeto ? "history/contains-vetoed-request" : "history/not-a-subsequence", "previousTransitions()[" + str(i) + "] = " + KIND_NAMES[Runner::kindOf(pt[i].type) < 0 ? 0 : Runner::kindOf(pt[i].type)] + "(" + str((int) pt[i].destination) +
+					  ") is not (in order) among the requests of the approved rounds", x);
+			return;
+		}
+		++j;
+	}
+	// (2) every approved transition request is recorded (scheduling requests: neither required nor forbidden)
+	for (const Rq& q : approved) {
+		if (q.kind == T_SCHEDULE) continue;
+		bool found = false;
+		for (unsigned i = 0; i < pt.count(); ++i) if (same(pt[i], q)) found = true;
+		if (!found) { violation("C09", "history/approved-request-missing", std::string("approved request ") + KIND_NAMES[q.kind] + "(" + str(q.dest) + ") is missing from previousTransitions()", x); return; }
+	}
+	bool anyApprovedTransition = false;
+	for (const Rq& q : approved) if (q.kind != T_SCHEDULE) anyApprovedTransition = true;
+	bool anyOptional = false;
+	for (const Tagged& t : seq) if (t.status == 1) anyOptional = true;
+	if (!anyApprovedTransition && !anyOptional && !initial && pt.count()) {
+		bool onlySchedule = true;
+		for (unsigned i = 0; i < pt.count(); ++i) if (pt[i].type != hfsm2::TransitionType::SCHEDULE) onlySchedule = false;
+		if (!onlySchedule) { violation("C09", "history/not-empty", "nothing was approved, yet previousTransitions() is not empty", x); return; }
+	}
+	// (3) lastTransitionTo(s): null or inside the array; after a single approved request: that request for every entered state
+	for (int s = 0; s < N; ++s) {
+		const auto* t = r.fsm->lastTransitionTo((hfsm2::StateID) s);
+		if (t && (pt.count() == 0 || t < &pt[0] || t > &pt[pt.count() - 1])) { violation("C09", "last-transition/outside", "lastTransitionTo(S" + str(s) + ") does not point into previousTransitions()", x); return; }
+	}
+	if (pt.count() == 1 && approved.size() == 1 && seq.size() == 1 && rs.size() == 1 && !initial) {
+		for (size_t i = x.stepBegin; i < x.stepEnd; ++i) {
+			const TraceEv& e = x.trace[i];
+			if (e.meth == M_ENTER && e.layer == 0 && r.fsm->lastTransitionTo((hfsm2::StateID) e.state) != &pt[0]) {
+				// witness for the known finding: the state was chosen by a utility / random report (which carries no request index)
+				const int k = approved[0].kind;
+				bool viaReport = k == T_UTILIZE || k == T_RANDOMIZE;
+				if (k == T_CHANGE) for (int t = E::D(e.state).parent; t >= 0; t = E::D(t).parent) if (E::D(t).kind == K_UTILITARIAN || E::D(t).kind == K_RANDOM) viaReport = true;
+				violation("C09", std::string("last-transition/entered-state/") + (viaReport ? "chosen-by-utility-or-random-report" : "other"), "after the single approved request " + std::string(KIND_NAMES[k]) + "(" + str(approved[0].dest) + "), lastTransitionTo(S" + str(e.state) +
+						  ") is not that request although S" + str(e.state) + " was entered by it", x);
+				return;
+			}
+		}
+	}
+	// (4) replica: identically prepared instance + replayTransitions()/replayEnter() -> same configuration, no guards
+	if (pt.count() == 0) return;
+	std::vector<typename E::Transition> list;
+	for (unsigned i = 0; i < pt.count(); ++i) list.push_back(pt[i]);
+	Runner rep;
+	rep.env.monitoring = false;
+	for (const Step& st : *x.hist) rep.apply(st, opt.fill);
+	bool ok = false;
+	const size_t t0r = rep.env.trace.size();
+	rep.env.stepTag = r.env.stepTag;
+	rep.env.beginStep(x.step.script, N);
+	if (initial) {
+#if VT_MANUAL
+		if (!rep.fsm) { Step c; c.op.type = OP_CONSTRUCT; rep.apply(c, opt.fill); }
+		ok = rep.fsm->replayEnter(&list[0], (hfsm2::Short) list.size());
+#else
+		return;	 // automatic activation cannot be replayed on an inactive replica
+#endif
+	} else
+		ok = rep.fsm->replayTransitions(&list[0], (hfsm2::Short) list.size());
+	++counters["c09_replays"];
+	const Snap rs2 = rep.snap();
+	for (size_t i = t0r; i < rep.env.trace.size(); ++i)
+		if (rep.env.trace[i].meth == M_ENTRY_GUARD || rep.env.trace[i].meth == M_EXIT_GUARD) { violation("C09", "replay/guard-consulted", "replaying the recorded transitions consulted a guard", x); return; }
+	if (!ok) {
+		// replay reports 'false' when the list changes nothing: then the authority must not have changed either
+		if (x.after.active != x.before.active) { violation("C09", "replay/refused", "replayTransitions() refused the recorded list although the authority changed its configuration", x); return; }
+		return;
+	}
+	if (rs2.active != x.after.active) {
+		std::string a1, a2;
+		for (int s = 0; s < N; ++s) { if (x.after.active[s]) a1 += " S" + str(s); if (rs2.active[s]) a2 += " S" + str(s); }
+		violation("C09", rs.size() > 1 ? "replay/config-multi-round" : "replay/config", "replica after replaying the recorded transitions is in {" + a2 + " }, the authority in {" + a1 + " }", x);
+		return;
+	}
+	bool sched = false;
+	for (auto& g : groups) for (const Rq& q : g) if (q.kind == T_SCHEDULE) sched = true;
+	bool guardIssued = false;
+	for (size_t g = 1; g < groups.size(); ++g) if (!groups[g].empty()) guardIssued = true;
+	if (rs.size() <= 1 && !guardIssued && !initial && !sched && rs2.resumable != x.after.resumable) { violation("C09", "replay/resumable", "replica and authority differ in resumable sub-states after a single-round, schedule-free step", x); return; }
+}
+#endif
+
+// ---- C10 (a)(c): per reachable state - storage pre-fill independence and copies -------------------------------------
+template <typename FSM> void Explorer<FSM>::perState(const Node& n) {
+	if (!(props & P_C10)) return;
+	auto sameRun = [&](const Exec& a, const Exec& b) {
+		if (a.keyAfter != b.keyAfter || a.trace.size() != b.trace.size() || a.after.active != b.after.active || a.after.resumable != b.after.resumable) return false;
+		for (size_t i = 0; i < a.trace.size(); ++i) { const TraceEv& p = a.trace[i]; const TraceEv& q = b.trace[i]; if (p.state != q.state || p.meth != q.meth || p.layer != q.layer || p.a != q.a || p.b != q.b || p.ctl != q.ctl) return false; }
+		return true;
+	};
+	const unsigned savedProps = props;
+	for (const Op& op : baseAlphabet(n)) {
+		if (op.type == OP_IMMEDIATE && op.r[0].kind > T_RESUME && (op.r[0].state % 3)) continue;  // thin out the less basic kinds
+		Exec ref;
+		props = 0;
+		const unsigned char f0 = opt.fill;
+		opt.fill = 0x00; run(n, Step{op, {}}, ref);
+		for (unsigned char f : {(unsigned char) 0xFF, (unsigned char) 0xA5}) {
+			Exec y;
+			opt.fill = f; run(n, Step{op, {}}, y);
+			++compared;
+			if (!sameRun(ref, y)) { props = savedProps; violation("C10", "fill/behaviour-depends-on-prior-memory", "the same history behaves differently when the instance is constructed in memory pre-filled with 0x" + std::string(f == 0xFF ? "FF" : "A5") + " instead of 0x00", y); props = 0; }
+		}
+		opt.fill = f0;
+		// (c) copy of the instance continues exactly as the original would
+		if (n.activated) copyCheck(n, op, ref);
+		props = savedProps;
+	}
+}
+
+template <typename FSM> void Explorer<FSM>::copyCheck(const Node& n, const Op& op, const Exec& ref) {
+	Runner r;
+	r.env.monitoring = false;
+	for (const Step& s : n.hist) r.apply(s, opt.fill);
+	void* mem2 = aligned_alloc(alignof(typename E::Instance) < sizeof(void*) ? sizeof(void*) : alignof(typename E::Instance), Runner::memSize());
+	memset(mem2, 0x5A, Runner::memSize());
+	const size_t t0 = r.env.trace.size();
+	auto* copy = new (mem2) typename E::Instance(*r.fsm);
+	if (r.env.trace.size() != t0) { Exec e = ref; violation("C10", "copy/callbacks-during-copy", "copy construction invoked user callbacks", e); }
+	// run the step on the copy
+	typename E::Instance* orig = r.fsm;
+	r.fsm = copy;
+	const std::string keyCopyBefore = r.key();
+	Step st{op, {}};
+	const size_t t1 = r.env.trace.size();
+	r.apply(st, opt.fill);
+	const size_t t2 = r.env.trace.size();
+	const std::string keyCopyAfter = r.key();
+	const Snap sc = r.snap();
+	r.fsm = orig;
+	const std::string keyOrigAfter = r.key();
+	// ... and the original must go on as if the copy did not exist
+	const size_t t3 = r.env.trace.size();
+	r.apply(st, opt.fill);
+	const size_t t4 = r.env.trace.size();
+	bool origSame = r.key() == ref.keyAfter && (t4 - t3) == (ref.stepEnd - ref.stepBegin);
+	if (origSame)
+		for (size_t i = 0; i < t4 - t3; ++i) { const TraceEv& p = r.env.trace[t3 + i]; const TraceEv& q = ref.trace[ref.stepBegin + i]; if (p.state != q.state || p.meth != q.meth || p.a != q.a || p.b != q.b) { origSame = false; break; } }
+	++compared;
+	++counters["c10_copy_steps"];
+	bool same = keyCopyBefore == ref.keyBefore && keyCopyAfter == ref.keyAfter && sc.active == ref.after.active && sc.resumable == ref.after.resumable && (t2 - t1) == (ref.stepEnd - ref.stepBegin);
+	if (same)
+		for (size_t i = 0; i < t2 - t1; ++i) { const TraceEv& p = r.env.trace[t1 + i]; const TraceEv& q = ref.trace[ref.stepBegin + i]; if (p.state != q.state || p.meth != q.meth || p.a != q.a || p.b != q.b) { same = false; break; } }
+	if (!same) { Exec e = ref; violation("C10", "copy/diverges", "a copy of the instance does not continue as the original would on " + op.text() + " (copy: " + keyCopyBefore + " -> " + keyCopyAfter + ", original: " + ref.keyBefore + " -> " + ref.keyAfter + ")", e); }
+	else if (keyOrigAfter != ref.keyBefore) { Exec e = ref; violation("C10", "copy/aliases-original", "stepping the copy changed the original (" + ref.keyBefore + " -> " + keyOrigAfter + ")", e); }
+	else if (!origSame) {
+		Exec e = ref;
+		const bool drew = [&]() { for (size_t i = t1; i < t2; ++i) if (r.env.trace[i].meth == M_RANK) return true; return false; }();
+		violation("C10", std::string("copy/original-affected-by-copy") + ((!VT_USE_SCRIPT_RNG && drew) ? "/shared-built-in-generator" : ""), "after its copy performed " + op.text() + ", the original no longer behaves as it would have without the copy", e);
+	}
+	// callbacks of the copy must run on the copy's own state objects
+	for (size_t i = t1; i < t2; ++i) {
+		const TraceEv& e = r.env.trace[i];
+		if (e.meth <= M_PLAN_FAILED && e.layer == 0 && e.state >= 0 && E::named(e.state) && e.self != vt_access(*copy, e.state)) { Exec ee = ref; violation("C10", "copy/this", "a callback of the copy ran on an object that is not the copy's own state", ee); break; }
+	}
+#if VT_MANUAL
+	if (copy->isActive()) copy->exit();
+#endif
+	copy->~InstanceT();
+	free(mem2);
+}
+
+// ---- after the fixpoint: C08 (all ordered pairs of reachable states), C10 (b) interleaved instances ------------------
+template <typename FSM> void Explorer<FSM>::finish() {
+#if VT_SERIAL
+	if (props & P_C08) checkC08();
+#endif
+	if (props & P_C10) {
+		// (b) two instances of one type driven by different histories, interleaved step by step: each must behave as alone
+		std::vector<const Node*> shortNodes;
+		for (const Node& n : allNodes) if (n.hist.size() <= (opt.tier == "thorough" ? 4u : 3u)) shortNodes.push_back(&n);
+		if (shortNodes.size() > 60) shortNodes.resize(60);
+		for (const Node* a : shortNodes)
+			for (const Node* b : shortNodes) {
+				if (a == b) continue;
+				Runner ra, rb;
+				ra.env.monitoring = rb.env.monitoring = false;
+				const size_t m = std::max(a->hist.size(), b->hist.size());
+				for (size_t i = 0; i < m; ++i) {
+					if (i < a->hist.size()) ra.apply(a->hist[i], 0x00);
+					if (i < b->hist.size()) rb.apply(b->hist[i], 0xFF);
+				}
+				++compared;
+				++counters["c10_interleavings"];
+				if (ra.key() != a->key || rb.key() != b->key) {
+					Exec e; e.hist = &a->hist; e.step = a->hist.empty() ? Step{} : a->hist.back();
+					E::R().violation("C10", "interleave/instances-interfere", "two instances driven by different histories, interleaved, do not reach the states they reach alone", a->hist, "other history: " + historyEnc(b->hist));
+				}
+			}
+	}
+}
+
+#if VT_SERIAL
+template <typename FSM> void Explorer<FSM>::checkC08() {
+	using SerialBuffer = typename E::Instance::SerialBuffer;
+	const size_t cap = opt.tier == "thorough" ? 2500 : 500;
+	std::vector<const Node*> nodes;
+	for (const Node& n : allNodes) nodes.push_back(&n);
+	if (nodes.size() > cap) { counters["c08_nodes_capped_at"] = (long) cap; nodes.resize(cap); }
+	if ((long) SerialBuffer::BIT_CAPACITY != VT_COUNTS.serialBits) E::R().violation("C08", "buffer/bit-capacity", "SerialBuffer::BIT_CAPACITY=" + str((long) SerialBuffer::BIT_CAPACITY) + " but the structure needs " + str(VT_COUNTS.serialBits) + " bits", History{});
+	auto heapBuf = []() { void* m = malloc(sizeof(SerialBuffer)); memset(m, 0xCD, sizeof(SerialBuffer)); return new (m) SerialBuffer; };
+	for (const Node* src : nodes) {
+		if (timeUp()) break;
+		Runner a;
+		a.env.monitoring = false;
+		for (const Step& s : src->hist) a.apply(s, opt.fill);
+		if (!a.fsm) continue;
+#if !VT_MANUAL
+		if (!a.machineActive()) continue;
+#endif
+		const std::string ka = a.key();
+		const size_t ta = a.env.trace.size();
+		SerialBuffer* buf = heapBuf();
+		a.fsm->save(*buf);
+		if (a.key() != ka || a.env.trace.size() != ta) E::R().violation("C08", "save/not-const", "save() changed the instance or invoked callbacks", src->hist);
+		const Snap sa = a.snap();
+		for (const Node* dst : nodes) {
+			Runner b;
+			b.env.monitoring = false;
+			for (const Step& s : dst->hist) b.apply(s, opt.fill);
+			if (!b.fsm) continue;
+#if !VT_MANUAL
+			if (!b.machineActive()) continue;
+#endif
+			const Snap sb0 = b.snap();
+			const size_t tb = b.env.trace.size();
+			b.env.beginStep({}, N);
+			b.fsm->load(*buf);
+			const Snap sb = b.snap();
+			++compared;
+			++transitions;
+			History h = dst->hist;
+			auto fail = [&](const std::string& fp, const std::string& msg) {
+				E::R().violation("C08", fp, msg + " (source state " + src->key + ", destination state " + dst->key + ")", h, "source history: " + historyEnc(src->hist) + " | load trace: " + E::traceText(b.env.trace, tb, 60));
+			};
+			if (sb.active != sa.active) { fail("load/config", "after load() the active configuration differs from the saved one"); continue; }
+			if (sb.resumable != sa.resumable) { fail("load/resumable", "after load() the resumable sub-states differ from the saved ones"); continue; }
+			// lifecycle: exit for every state that stops being active, enter for every state that becomes active
+			std::vector<uint8_t> gotExit(N, 0), gotEnter(N, 0);
+			bool guard = false;
+			for (size_t i = tb; i < b.env.trace.size(); ++i) { const TraceEv& e = b.env.trace[i]; if (e.layer) continue; if (e.meth == M_EXIT) gotExit[e.state] = 1; if (e.meth == M_ENTER) gotEnter[e.state] = 1; if (e.meth == M_ENTRY_GUARD || e.meth == M_EXIT_GUARD) guard = true; }
+			bool lifeOk = true;
+			for (int s = 0; s < N && lifeOk; ++s) {
+				if (!E::named(s) || E::D(s).lite) continue;
+				if (sb0.active[s] && !sa.active[s] && !gotExit[s]) { fail("load/exit-missing", "S" + str(s) + " stopped being active on load() without exit()"); lifeOk = false; }
+				else if (!sb0.active[s] && sa.active[s] && !gotEnter[s]) { fail("load/enter-missing", "S" + str(s) + " became active on load() without enter()"); lifeOk = false; }
+			}
+			if (!lifeOk) continue;
+			(void) guard;
+			SerialBuffer* buf2 = heapBuf();
+			b.fsm->save(*buf2);
+			if (memcmp(buf->data(), buf2->data(), sizeof(typename SerialBuffer::Data)) != 0) fail("save/round-trip", "saving the loaded instance does not reproduce the buffer bit for bit");
+			buf2->~SerialBuffer(); free(buf2);
+			// the loading instance's complete lifecycle stays balanced up to destruction
+			Exec x; x.hist = &dst->hist;
+#if VT_MANUAL
+			if (b.machineActive()) b.fsm->exit();
+#endif
+			b.destroy();
+			std::vector<uint8_t> entered(N, 0);
+			bool bal = true;
+			for (const TraceEv& e : b.env.trace) {
+				if (e.layer || e.state < 0) continue;
+				if (e.meth == M_ENTER) { if (entered[e.state]) bal = false; entered[e.state] = 1; }
+				if (e.meth == M_EXIT) { if (!entered[e.state]) bal = false; entered[e.state] = 0; }
+			}
+			for (int s = 0; s < N; ++s) if (entered[s]) bal = false;
+			if (!bal) fail("load/lifecycle-unbalanced", "enter/exit callbacks of the loading instance are not balanced over its life");
+		}
+		buf->~SerialBuffer(); free(buf);
+	}
+	counters["c08_nodes"] = (long) nodes.size();
+}
+#endif
 
 }  // namespace vt
